@@ -657,7 +657,7 @@ def _do_sign(ctx, W, tx, st, secrets):
                 ctx.probe("supply_keychain_hd")
                 root = W.net.keys.bip32_seed(bytes.fromhex(W.hd["seed"]))
                 wanted = set(secrets)
-                paths = [k["path"] for k in W.keys if k.get("path") and k["d"] in wanted]
+                paths = [k["path"] for i_, k in enumerate(W.keys) if k.get("path") and (k["d"] in wanted or i_ in (st.get("hd_register") or []))]
                 kc.add_key_paths(root, paths)
                 kc.commit()
                 if not st.get("withhold_root"):
@@ -690,16 +690,31 @@ def _op_sign(ctx, W, st):
     cp = W.copies.get(st["copy"])
     if cp is None:
         return
-    if st.get("withhold_root") and str(st.get("supply")) == "keychain_hd" and W.hd:
-        # the cosigner registers the key paths but has not unlocked its root yet: no hierarchical key is available
-        st = dict(st, keys=[k for k in st["keys"] if not (0 <= k < len(W.keys) and W.keys[k].get("path"))])
-    if st.get("reuse_keychain") and str(st.get("supply", "")).startswith("keychain"):
+    hd_pass = str(st.get("supply")) == "keychain_hd" and W.hd
+    reuse = bool(st.get("reuse_keychain")) and str(st.get("supply", "")).startswith("keychain")
+    is_hd = lambda k: 0 <= k < len(W.keys) and bool(W.keys[k].get("path"))
+    if reuse and st.get("clear_secrets"):
+        W.kc_keys, W.kc_root_added = set(), False
+    if hd_pass:
+        # the key paths of every hierarchical key asked for are registered in the database, root unlocked or not
+        registered = (getattr(W, "kc_registered", set()) if reuse else set()) | set(k for k in st["keys"] if is_hd(k))
+        root_known = (reuse and getattr(W, "kc_root_added", False)) or not st.get("withhold_root")
+        st = dict(st, hd_register=sorted(registered))
+        if reuse:
+            W.kc_registered = registered
+            W.kc_root_added = root_known and not st.get("clear_secrets")
+        if root_known:
+            # every registered path resolves once the root is unlocked
+            st["keys"] = sorted(set(st["keys"]) | registered)
+        else:
+            # paths registered, root still locked: no hierarchical key is available in this pass
+            st["keys"] = [k for k in st["keys"] if not is_hd(k)]
+    if reuse:
         # a long-lived keychain accumulates the secrets of every pass that used it
-        prev = getattr(W, "kc_keys", set())
+        W.kc_keys = getattr(W, "kc_keys", set()) | set(k for k in st["keys"] if k >= 0 and (not is_hd(k) or not hd_pass or getattr(W, "kc_root_added", False) or not st.get("withhold_root")))
         if st.get("clear_secrets"):
-            prev = set()
-        W.kc_keys = prev | set(k for k in st["keys"] if k >= 0)
-        st = dict(st, keys=sorted(W.kc_keys) + [k for k in st["keys"] if k < 0])
+            W.kc_keys = set()
+        st = dict(st, keys=sorted(set(k for k in st["keys"] if k >= 0) | W.kc_keys) + [k for k in st["keys"] if k < 0])
     secrets = _key_material(W, st["keys"])
     if any(k < 0 for k in st["keys"]):
         ctx.fault("wrong_key_pass")
